@@ -96,6 +96,17 @@ def gen_force_case(rng, deep=False):
     return dict(k=k, path=path, haps=haps, genos=genos, cov=cov, depths=depths, err=0.05)
 
 
+def gen_force_exhaustive(kmax):
+    """every (sorted genotype vector over alleles 0..2, configuration over -1..2) for ploidy 2..kmax at one position,
+    haplotype i threaded through cluster i % 2, fixed shallow cluster depths"""
+    for k in range(2, kmax + 1):
+        genos = [g for g in itertools.combinations_with_replacement(range(3), k)]
+        for g in genos:
+            for cfg in itertools.product([-1, 0, 1, 2], repeat=k):
+                yield dict(k=k, path=[[i % 2 for i in range(k)]], haps=[[a] for a in cfg], genos=[geno_dict(g)],
+                           cov=[[0, 1]], depths=[{0: {0: 5, 1: 3}, 1: {1: 4, 2: 2}}], err=0.05)
+
+
 def run_force(case):
     """call the real force_genotypes; returns resulting haplotypes (rows) or ('error', class)"""
     from whatshap.polyphase.threading import force_genotypes
@@ -373,7 +384,8 @@ def gen_matrix_instance(rng, k=None, nvars=None, nreads=None, deep=False):
         for n in range(k * rng.choice([270, 300])):
             h = n % k
             reads.append([(positions[q], cols[q][h]), (positions[q + 1], cols[q + 1][h])])
-    return dict(k=k, positions=positions, cols=cols, genos=genos, reads=reads,
+    nalt = [max([nall[i] - 1, 1] + list(genos[i])) for i in range(nvars)]      # ALT alleles the VCF record must list
+    return dict(k=k, positions=positions, cols=cols, genos=genos, reads=reads, nalt=nalt,
                 sens=rng.randrange(6), prephase=None)
 
 
@@ -422,8 +434,8 @@ def build_inputs(inst, sample="S"):
     rs.sort()
     vt = VariantTable("chrA", [sample])
     for q, pos in enumerate(inst["positions"]):
-        na = max(max(inst["genos"][q]), max(inst["cols"][q]), 1)
-        var = MultiallelicVcfVariant(pos, "A", ["C", "G", "T", "AA", "AC", "AG", "AT"][:na])
+        na = inst["nalt"][q]
+        var = MultiallelicVcfVariant(pos, "A", ["C", "G", "T", "AA", "AC", "AG", "AT", "CA", "CC"][:na])
         ph = None
         if inst.get("prephase") and inst["prephase"][q] is not None:
             ph = VariantCallPhase(inst["prephase"][q][0], tuple(inst["prephase"][q][1]), None)
@@ -616,12 +628,13 @@ def write_instance_vcf(inst, path, extra_hom=True):
                 used.add(q)
     allpos.sort()
     gmap = dict(zip(inst["positions"], inst["genos"]))
+    amap = dict(zip(inst["positions"], inst["nalt"]))
     pmap = dict(zip(inst["positions"], inst.get("prephase") or [None] * len(inst["positions"])))
     for p in allpos:
-        alts = ["C", "G", "T", "AA", "AC", "AG", "AT"]
+        alts = ["C", "G", "T", "AA", "AC", "AG", "AT", "CA", "CC"]
         if p in gmap:
             g = gmap[p]
-            na = max(max(g), 1)
+            na = amap[p]
             if pmap.get(p):
                 call = "|".join(map(str, pmap[p][1])) + f":{pmap[p][0]}"
             else:
